@@ -34,14 +34,21 @@ var litParsers = map[string]parsley.Parser{
 	"rune":     terminal.Rune('é'),
 	"duration": terminal.TimeDuration("d"),
 	"regexp":   terminal.Regexp("r", "ID", "identifier", litRegexp, 1),
+	"regexp2":  terminal.Regexp("r", "KW", "keyword", litRegexp2, 0),
 }
+
+const litRegexp2 = `ab|ba+|c`
 
 // litObserve runs one parser at one offset; cursors are 0-based (the file is alone in its set: pos = cursor + 1)
 func litObserve(p string, d []byte, off int) J {
 	o := J{"p": p, "d": intsOf(d), "off": off, "k": "err", "e": 0, "nf": false, "val": []int{}, "start": 0, "valueOK": true, "inrange": true, "rx": -1}
 	// delegated oracles, computed from the bytes only (independently of parsley)
-	if p == "regexp" && off <= len(d) {
-		if m := regexp.MustCompile("^(?:" + litRegexp + ")").FindIndex(d[off:]); m != nil && off < len(d) {
+	if (p == "regexp" || p == "regexp2") && off <= len(d) {
+		expr := litRegexp
+		if p == "regexp2" {
+			expr = litRegexp2
+		}
+		if m := regexp.MustCompile("^(?:" + expr + ")").FindIndex(d[off:]); m != nil && off < len(d) {
 			o["rx"] = m[1]
 		}
 	}
@@ -100,6 +107,9 @@ func litObserve(p string, d []byte, off int) J {
 		case "regexp":
 			m := regexp.MustCompile("^(?:" + litRegexp + ")").FindSubmatch(d[off:])
 			o["valueOK"] = m != nil && val == string(m[1])
+		case "regexp2":
+			m := regexp.MustCompile("^(?:" + litRegexp2 + ")").Find(d[off:])
+			o["valueOK"] = m != nil && val == string(m)
 		case "rune":
 			o["valueOK"] = val == 'é'
 		case "word":
@@ -181,13 +191,13 @@ func literalsMain(mode string, a args) {
 		}
 		r := rand.New(rand.NewSource(int64(a.num("seed", 1))))
 		n := a.num("n", 500)
-		names := []string{"integer", "float", "string", "stringbq", "char", "bool", "nil", "word", "op", "rune", "duration", "regexp"}
+		names := []string{"integer", "float", "string", "stringbq", "char", "bool", "nil", "word", "op", "rune", "duration", "regexp", "regexp2"}
 		near := map[string][]string{
 			"integer":  {"9223372036854775807", "9223372036854775808", "-9223372036854775808", "-9223372036854775809", "0x7fffffffffffffff", "0xffffffffffffffffff", "0777", "08", "0x", "12.", "+", "-0", "123456789012345678901234567890"},
 			"float":    {"1.5", "1.2e3456", "-1.2e-3456", ".5e", "1.e5", "..5", "1.2e+", "123456789.123456789e300", "0.0", "+.0e0"},
-			"string":   {`"abc"`, `"a\nb"`, `"\u00e9\U0001F355"`, `"\x41\101"`, `"\q"`, `"\/"`, `"unterminated`, "\"raw\xff\xfe\"", "\"\xc3\"", `"\ud800"`, `"\777"`, "\"a\nb\"", "\"\\t\nq\"", `""`, `"`},
+			"string":   {`"abc"`, `"a\nb"`, `"\u00e9\U0001F355"`, `"\x41\101"`, `"\xe9"`, `"\351\200"`, `"\x80\xff"`, `"\q"`, `"\/"`, `"unterminated`, "\"raw\xff\xfe\"", "\"\xc3\"", `"\ud800"`, `"\777"`, "\"a\nb\"", "\"\\t\nq\"", `""`, `"`},
 			"stringbq": {"`raw\nline`", "``", "`open", `"x"`, "`a\\n`"},
-			"char":     {`'a'`, `'\n'`, `'\''`, `'\x41'`, `'\u00e9'`, `'\U0001F355'`, `'\UFFFFFFFF'`, `'\ud800'`, `'\q'`, `'\0'`, `''`, `'ab'`, `'`, "'\xff'", "'\xc3\xa9'", "'\n'", `'\`},
+			"char":     {`'a'`, `'\n'`, `'\''`, `'\x41'`, `'\xe9'`, `'\u00e9'`, `'\U0001F355'`, `'\UFFFFFFFF'`, `'\ud800'`, `'\q'`, `'\0'`, `''`, `'ab'`, `'`, "'\xff'", "'\xc3\xa9'", "'\n'", `'\`},
 			"bool":     {"a", "b", "ab", "a_", "a b", "ba"},
 			"nil":      {"ab", "abc", "ab ", "a"},
 			"word":     {"ab", "ab1", "ab-", "a"},
@@ -195,6 +205,7 @@ func literalsMain(mode string, a args) {
 			"rune":     {"é", "\xc3", "e", "éé"},
 			"duration": {"1h30m", "1.5s", "5ms", "5µs", "5μs", "1h30", "10", "-2h", "99999999999999h", "1.5", "1ms2", "3m.5s", "+1ns"},
 			"regexp":   {"abc12", "abc", "12", "a1b", "é1"},
+			"regexp2":  {"ab", "baaa", "c", "xxba", "xab", "a", "xc", "bba"},
 		}
 		junk := []byte("01789afx.eE+-\"'\\`nuU _\n\t\xc3\xa9\xffhms")
 		for i := 0; i < n; i++ {
